@@ -132,6 +132,7 @@ R.macro("dial_guard", ["p", "now"],
         "p.persistent and is_none(p.connection) and not is_none(p.last_disconnect) and some(p.last_disconnect) != 0 and "
         "now - some(p.last_disconnect) >= p.reconnect_wait and "
         "not (not is_none(p.disconnect_reason) and some(p.disconnect_reason) == %d and not p.always_reconnect)" % R_DPR)
+R.macro("due_before", ["pp", "now"], "prev(dial_guard(pp, now))")
 R.contract("Node._reconnect_peers", params={"self": "Node"},
            ensures=[("no-dialling-while-stopping", "implies(old(self._stopping), self.g_dialled == old(self.g_dialled))")],
            raises=[],
@@ -151,8 +152,7 @@ R.loop("Node._reconnect_peers", 0,
              ("due-peer-is-dialled", "implies(prev(dial_guard(peer, int(clock()))), "
                                      "len(self.g_dialled) == prev(len(self.g_dialled)) + 1)"),
              ("dialled-peer-was-due", "implies(len(self.g_dialled) == prev(len(self.g_dialled)) + 1, "
-                                      "prev(dial_guard(peer, now_at_end)))")],
-       ghost={"now_at_end": "int"},
+                                      "due_before(peer, int(clock())))")],
        modifies=["self.g_dialled", "*Peer.connection", "*Peer.disconnect_reason", "*Peer.last_connect", "*Peer.last_disconnect",
                  "dict:self.connections", "dict:self.peer_sockets", "dict:self.socket_peers",
                  "dict:self._half_ready_connections", "*MsgQueue.g_put", "*SequenceGenerator._sequence", "*Event.flag",
